@@ -84,6 +84,7 @@ class Machine:
         self.globals = mod["globals"]
         self.dom = domain
         self.max_steps = max_steps
+        self.value_hook = None      # cut points: replace a recognised intermediate value by a fresh symbol
         self.reset([])
 
     def reset(self, decisions):
@@ -363,7 +364,10 @@ class Machine:
             self.store(V(1), V(0), ins["size"])
             return None
         if op in ("fadd", "fsub", "fmul", "fdiv", "frem"):
-            env[ins["id"]] = self.dom.arith(op, self.fval(V(0)), self.fval(V(1)))
+            r = self.dom.arith(op, self.fval(V(0)), self.fval(V(1)))
+            if self.value_hook is not None:
+                r = self.value_hook(fname, ins, r)
+            env[ins["id"]] = r
             return None
         if op == "fneg":
             env[ins["id"]] = self.dom.neg(self.fval(V(0)))
